@@ -23,3 +23,163 @@ def o_c04(spec, obs):
     if obs["result"] != exp:
         return True, "signature mismatch: got %r expected %r" % (obs["result"], exp)
     return False, "ok"
+
+
+# ------------------------------------------------------------------------------- fake device / api ops
+import asyncio  # noqa: E402
+import importlib  # noqa: E402
+
+from spec import opspec as SO  # noqa: E402
+
+
+class FakeReader:
+    def __init__(self, dev):
+        self.dev = dev
+
+    async def read(self, n=-1):
+        await asyncio.sleep(0)
+        k = self.dev.nreads
+        self.dev.nreads += 1
+        if k < len(self.dev.replies):
+            r = self.dev.replies[k]
+        else:
+            r = b""
+        return r[:n] if n and n > 0 else r
+
+
+class FakeWriter:
+    def __init__(self, dev):
+        self.dev = dev
+
+    def write(self, data):
+        self.dev.frames.append(bytes(data))
+
+    async def drain(self):
+        await asyncio.sleep(0)
+
+    def close(self):
+        self.dev.closed += 1
+
+    async def wait_closed(self):
+        await asyncio.sleep(0)
+
+    def is_closing(self):
+        return self.dev.closed > 0
+
+
+class FakeDevice:
+    def __init__(self, replies):
+        self.replies = replies
+        self.frames = []
+        self.nreads = 0
+        self.closed = 0
+        self.opened = 0
+
+
+def build_remote(rspec):
+    """remote for control_breeze_device replays: a real SwitcherBreezeRemote built from an IR set"""
+    from aioswitcher.api.remotes import SwitcherBreezeRemote
+
+    return SwitcherBreezeRemote(rspec["ir_set"])
+
+
+def run_api_op(spec):
+    api_mod = importlib.import_module("aioswitcher.api")
+    dev = FakeDevice([bytes.fromhex(r) for r in spec["replies"]])
+
+    async def fake_open_connection(host=None, port=None, **kw):
+        dev.opened += 1
+        return FakeReader(dev), FakeWriter(dev)
+
+    real_open = api_mod.open_connection
+    api_mod.open_connection = fake_open_connection
+    try:
+        cls = api_mod.SwitcherType1Api if spec["api"] == 1 else api_mod.SwitcherType2Api
+        api = cls("127.0.0.1", spec["dev_id"], spec["key"])
+        args = [denorm(a) for a in spec["args"]]
+        kwargs = {k: denorm(v) for k, v in spec.get("kwargs", {}).items()}
+        if spec.get("remote") is not None:
+            args = [build_remote(spec["remote"])] + args
+
+        async def go():
+            await api.connect()
+            try:
+                return await getattr(api, spec["op"])(*args, **kwargs)
+            finally:
+                await api.disconnect()
+
+        with Env(spec) as env:
+            try:
+                res = asyncio.run(go())
+                out = {"result": norm(res)}
+            except Exception as e:  # noqa: BLE001
+                out = exc_name(e)
+    finally:
+        api_mod.open_connection = real_open
+    out["frames"] = [f.hex() for f in dev.frames]
+    return out
+
+
+kind("api_op")(run_api_op)
+
+
+def _abstract_args(spec, frame):
+    """abstract argument record (spec.opspec) from the concrete replay spec + the command frame"""
+    op = spec["op"]
+    a = {
+        "session": bytes.fromhex(spec["replies"][0])[8:12],
+        "dev_id": bytes.fromhex(spec["dev_id"]),
+        "key": bytes.fromhex(spec["key"]),
+        "ts": int.from_bytes(frame[24:28], "little") if frame is not None and len(frame) >= 28 else 0,
+    }
+    args = [denorm(x) for x in spec["args"]]
+    if op == "control_device":
+        a["on"] = 1 if args[0].name == "ON" else 0
+        a["minutes"] = args[1]
+    elif op == "set_auto_shutdown":
+        a["secs"] = int(args[0].total_seconds())
+    elif op == "set_device_name":
+        a["name_bytes"] = args[0].encode()
+        a["name_chars"] = len(args[0])
+    elif op == "delete_schedule":
+        a["slot"] = int(args[0]) if args[0].isdigit() else -1
+    elif op == "set_position":
+        a["position"] = args[0]
+    return a
+
+
+@oracle("C01")
+def o_c01(spec, obs):
+    """every written frame: magic, LE16 total length, terminator, signature"""
+    if len(bytes.fromhex(spec["replies"][0])) < 12:
+        return False, "login reply carries no session id (outside the statement)"
+    for i, fh in enumerate(obs["frames"]):
+        f = bytes.fromhex(fh)
+        conds = SF.envelope_ok(O, f)
+        for name, ok in conds.items():
+            if not ok:
+                return True, "frame %d (%d bytes) fails %s: header bytes 2..3 = %s" % (i, len(f), name, f[2:4].hex())
+    return False, "all %d frames self-consistent" % len(obs["frames"])
+
+
+@oracle("C02")
+def o_c02(spec, obs):
+    op = spec["op"]
+    frames = [bytes.fromhex(f) for f in obs["frames"]]
+    cmd = frames[1] if len(frames) > 1 else None
+    a = _abstract_args(spec, cmd)
+    acc = SO.accepted(O, op, a)
+    raised = "exception" in obs
+    if SO.must_reject(O, op, a):
+        if raised and len(frames) <= 1:
+            return False, "rejected argument raised, no command frame"
+        return True, "argument outside the accepted domain did not raise cleanly (raised=%s, frames=%d)" % (raised, len(frames))
+    if not acc:
+        return False, "argument outside the documented domain: the statement is silent"
+    if cmd is None:
+        return True, "accepted arguments but no command frame was written (%s)" % (obs.get("exception"),)
+    exp = SO.expected_frame(O, SO.command_kind(op), op, a)
+    if cmd != exp:
+        d = [i for i in range(min(len(cmd), len(exp))) if cmd[i] != exp[i]]
+        return True, "command frame differs from the reference layout: len %d vs %d, first differing offsets %s" % (len(cmd), len(exp), d[:6])
+    return False, "ok"
